@@ -289,6 +289,32 @@ fn run_case(line: &str) -> String {
         Err(_) => "RunErr".to_string(),
     })
     .unwrap_or_else(|_| "PANIC".to_string());
+    // a float literal after its two neighbouring floats (an interning key that is not exact confuses them)
+    let (ps, pb) = match (kind, parse_simple_number(&text)) {
+        ("N", Ok(SimpleNumber::Float(f))) if f.is_finite() && ps == s && pb == b => {
+            let lo = f64::from_bits(f.to_bits().wrapping_sub(1));
+            let hi = f64::from_bits(f.to_bits().wrapping_add(1));
+            let spell = |x: f64| if x.is_finite() && x > 0.0 { format!("{:?}", x) } else { "2.5".to_string() };
+            let (lo_s, hi_s) = (spell(lo), spell(hi));
+            if lo_s.contains('e') || hi_s.contains('e') || !lo_s.contains('.') || !hi_s.contains('.') {
+                (ps, pb)
+            } else {
+                let prelude2 = format!("{} {}\n\n", lo_s, hi_s);
+                let ps2 = catch(|| {
+                    let mut data = SimpleGarnishData::new();
+                    pipeline_after(&mut data, kind, &src, &prelude2)
+                })
+                .unwrap_or_else(|_| "PANIC".to_string());
+                let pb2 = catch(|| match BasicGarnishData::<(), NoOpCompanion>::new(NoOpCompanion::new()) {
+                    Ok(mut data) => pipeline_after(&mut data, kind, &src, &prelude2),
+                    Err(_) => "RunErr".to_string(),
+                })
+                .unwrap_or_else(|_| "PANIC".to_string());
+                (ps2, pb2)
+            }
+        }
+        _ => (ps, pb),
+    };
     let same = |x: &String, y: &String| if x == y { "same".to_string() } else { x.clone() };
     format!("{}\tD={};S={};B={}\t{}\tPS={};PB={}", line, d, s, b, o, same(&ps, &s), same(&pb, &b))
 }
